@@ -2,23 +2,26 @@
 VARIANT = "san"
 RULE = "see stats"
 PARTIAL = [
-    "clause 'never fails on a circuit that legalization alone accepts': proved for the constructor (`fromCircuit_ok_of_legal`: "
-    "C01 domain + C01 `Legal` + `OrientLegal` => `fromIspdCircuit` returns normally) and for the primitives (`swap_never_throws`, "
-    "`insert_never_throws`: a move accepted by canSwap/canInsert is carried out, canPlace inside included).  Not proved: "
-    "(a) `OrientLegal` of legalization's result (each one-row cell has the orientation its row demands) is C04's clause and an "
-    "explicit hypothesis here, C01's `Legal` does not contain it; (b) that the optimiser's loops (runSwaps/runInserts/runShifts/"
-    "RowReordering and the incremental net model) call the primitives only with arguments inside the contract is tied by the "
-    "hook-H3 history replay + the direct oracle (placeDetailed must neither throw nor abort whenever legalize alone succeeded "
-    "and returned a legal placement), not proved",
-    "`inv_init`, `inv_legal`, `init_of_legal` assume that no movable cell carries the orientation INVALID (the model's `Inv` "
-    "demands it of optimised cells; `check()` does not test it for cells without row polarity); C01's domain does not state it",
+    "clause 'never fails on a circuit that legalization alone accepts': proved for the constructor, with no side condition, for "
+    "every result of the *model's* legalization (`constructor_ok_after_legalize`: C01 domain + `legalizeWith` returns c' => "
+    "`fromIspdCircuit c'` returns normally with Inv and all cells placed; uses C01's `legalizeWith_legal` and C04's "
+    "`legalizeWith_orient`), and for the primitives (`swap_never_throws`, `insert_never_throws`: a move accepted by "
+    "canSwap/canInsert is carried out, canPlace inside included).  Not proved: that the optimiser's loops (runSwaps/runInserts/"
+    "runShifts/RowReordering and the incremental net model) call the primitives only with arguments inside the contract and "
+    "raise no exception of their own; this is tied by the hook-H3 history replay + the direct oracle (placeDetailed must neither "
+    "throw nor abort whenever legalize alone succeeded and returned a legal placement)",
+    "`inv_init`, `inv_legal`, `init_of_legal` on an arbitrary circuit assume that no movable cell carries the orientation INVALID "
+    "and `fromCircuit_ok_of_legal` assumes `OrientLegal` (one-row cells have the orientation their row demands): C01's `Legal` "
+    "contains neither; both are proved for legalization's results (`legalize_noInvalid`, `legalize_orientLegal`), so "
+    "`detailed_legal_after_legalize` has no such hypothesis",
     "lemon NetworkSimplex returning potentials that satisfy the arc constraints is assumed: the model's `shift` re-checks every "
     "update, the code does not; a violation would be caught on explored runs (history replay + legality oracle), not excluded for all",
     "that the optimiser's loops only perform the modelled primitive moves is tied by the hook-H3 history replay on explored runs, "
     "not proved; RowReordering's contract (registered cells are placed optimised cells, predecessors stay placed) is checked "
     "dynamically by the model (`Err.guard`) rather than derived from addCells",
-    "`inv_legal` speaks about the model's `exportPlacement` of any reachable model state; that each Detailed callback exposes "
-    "exactly such a state is the history-replay tie (model export == exposed placement at every callback and on return)",
+    "`inv_legal` / `detailed_legal_after_legalize` speak about the model's `exportPlacement` of any reachable model state; that "
+    "each Detailed callback exposes exactly such a state is the history-replay tie (model export == exposed placement at every "
+    "callback and on return), and that placeDetailed starts from the model's legalization result is C01's correspondence",
 ]
 ASSUMPTIONS = [
     "lemon::NetworkSimplex returns feasible potentials (shift passes)",
@@ -30,7 +33,9 @@ LEVEL_TEXT = ("Lean 4 theorems over an executable model of DetailedPlacement's d
               "fromIspdCircuit returns satisfies the decidable invariant Inv (= every test of DetailedPlacement::check() + link "
               "symmetry + orientation != INVALID + y on row + positive widths) with every optimised cell placed (inv_init), and on a "
               "circuit of C01's domain that is legal in C01's sense with row-conform orientations the constructor does not fail "
-              "(fromCircuit_ok_of_legal: upper_bound lookup in the sorted free segments, overlap test, final check()).  Moves: "
+              "(fromCircuit_ok_of_legal: upper_bound lookup in the sorted free segments, overlap test, final check()); with C01's "
+              "legality and C04's orientation theorem this holds for every result of legalization without side condition "
+              "(constructor_ok_after_legalize, detailed_legal_after_legalize).  Moves: "
               "unplace/place (pointer surgery included), swap (3 branches), insert (Int.tdiv midpoints), checked shift and reorder "
               "write-back all preserve Inv, hence every state reachable by any move sequence with arbitrary arguments satisfies it "
               "(inv_run); feasible swaps/inserts are carried out without exception (swap_never_throws, insert_never_throws); ignored "
